@@ -265,6 +265,7 @@ func CompactTypes(module *Module) {
 	}
 
 	// Step 4: Remap all type handles throughout the module
+	oldTypes := module.Types
 	module.Types = newTypes
 
 	// Remap handles within types
@@ -289,12 +290,12 @@ func CompactTypes(module *Module) {
 
 	// Remap functions (regular)
 	for fi := range module.Functions {
-		remapFunctionTypes(&module.Functions[fi], remap)
+		remapFunctionTypesFrom(&module.Functions[fi], remap, oldTypes)
 	}
 
 	// Remap entry point functions (inline in EntryPoints)
 	for ei := range module.EntryPoints {
-		remapFunctionTypes(&module.EntryPoints[ei].Function, remap)
+		remapFunctionTypesFrom(&module.EntryPoints[ei].Function, remap, oldTypes)
 		// Remap MeshStageInfo type handles.
 		if mi := module.EntryPoints[ei].MeshInfo; mi != nil {
 			mi.VertexOutputType = remap[mi.VertexOutputType]
@@ -324,6 +325,12 @@ func CompactTypes(module *Module) {
 
 // remapFunctionTypes remaps all type handles within a function.
 func remapFunctionTypes(f *Function, remap []TypeHandle) {
+	remapFunctionTypesFrom(f, remap, nil)
+}
+
+// remapFunctionTypesFrom is remapFunctionTypes with the type arena from before
+// the compaction at hand (may be nil).
+func remapFunctionTypesFrom(f *Function, remap []TypeHandle, oldTypes []Type) {
 	for ai := range f.Arguments {
 		f.Arguments[ai].Type = remap[f.Arguments[ai].Type]
 	}
@@ -341,8 +348,18 @@ func remapFunctionTypes(f *Function, remap []TypeHandle) {
 		if tr.Handle != nil {
 			newH := remap[*tr.Handle]
 			if newH == ^TypeHandle(0) {
-				// Abstract type was removed. Drop handle — backend will use
-				// Value or infer type from expression context.
+				// The type was removed (only expression types referred to
+				// it). Drop the handle; for a concrete scalar / vector /
+				// matrix keep the type by value, so that the expression
+				// does not end up without any recorded type. For an
+				// abstract type the backend uses Value or infers the type
+				// from the expression context.
+				if tr.Value == nil && int(*tr.Handle) < len(oldTypes) && !IsAbstractType(oldTypes[*tr.Handle].Inner, oldTypes) {
+					switch inner := oldTypes[*tr.Handle].Inner.(type) {
+					case ScalarType, VectorType, MatrixType:
+						tr.Value = inner
+					}
+				}
 				tr.Handle = nil
 			} else {
 				tr.Handle = &newH
